@@ -341,3 +341,29 @@ def confirm_claims(ses, v):
 
 
 PY_CONFIRM.update({'c18': confirm_claims, 'c18_time': confirm_claims})
+
+
+# ----------------------------------------------------------------------------- nonce reuse across builds of one builder (C10)
+def confirm_nonce(ses, v):
+    import base64
+    seqs = [[['build']] * 3, [['set', 'a', 1], ['build'], ['build'], ['set', 'a', 2], ['build']], [['footer', 'f'], ['build'], ['build']]] + [[['build']] * 12]
+    seqs = [[list(o) for o in s_] for s_ in seqs]
+    for proto in ([v['replay'].get('proto')] if v['replay'].get('proto') else []) + ['v4.local', 'v3.local', 'v2.local', 'v1.local']:
+        for layer in ('generic', 'prelude'):
+            out = run_native({'steps': [{'op': 'builder_seqs', 'proto': proto, 'layer': layer, 'seed': '07' * 32, 'seqs': seqs, 'out': 'B'}], 'violated_if': []})
+            ses.native_runs = getattr(ses, 'native_runs', 0) + 1
+            res = (out.get('trace') or [{}])[0].get('results')
+            if res is None: continue
+            for item in res:
+                toks = [o['value'] for o in item['outs'] if o.get('build') == 'ok']
+                nl = 24 if proto == 'v2.local' else 32; nonces = []
+                for t in toks:
+                    seg = t.split('.')[2]; raw = base64.urlsafe_b64decode(seg + '=' * (-len(seg) % 4)); nonces.append(raw[:nl])
+                if len(set(toks)) != len(toks) or len(set(nonces)) != len(nonces):
+                    v['native'] = {'proto': proto, 'layer': layer, 'sequence': item['seq'], 'nonces': [n.hex() for n in nonces], 'violated': 'two builds of one builder carry the same nonce'}
+                    v['what'] += ' [natively: %s %s builder, %d builds, repeated nonce %s]' % (proto, layer, len(toks), [n.hex()[:16] for n in nonces][:4]); v['replay'] = {'kind': 'c10', 'proto': proto}
+                    return True
+    return False
+
+
+PY_CONFIRM.update({'c10': confirm_nonce})
